@@ -4,9 +4,9 @@
    (Gen/ProdDFA.v, from verif::dump_dfa): same start, same number of states in
    the same numbering (the model mirrors the discovery order of the code), same
    transition on every byte, same accepting / terminal flags, same tag sets. *)
-From Coq Require Import List NArith Bool Arith.
+From Coq Require Import List NArith PArith FMapPositive Bool Arith.
 From SNT Require Import Base.Outcome Base.Report Automata.Regex Automata.NFA Automata.Compile
-  Automata.DfaData Automata.ProdNfaData.
+  Automata.CompileFast Automata.DfaData Automata.ProdNfaData.
 Import ListNotations.
 
 Definition opt_n_eqb (a : option nat) (b : option N) : bool :=
@@ -48,7 +48,8 @@ Fixpoint infos_agree (a : list dinfo) (b : list info) : bool :=
 
 (* 0 = agreement; other values say what differs *)
 Definition prod_agree (fuel cf : nat) (nd : nfa_data) (dd : dfa_data) : N :=
-  match Compile.compile fuel cf (to_nfa nd) with
+  (* compile_fast = compile (CompileFastProofs.compile_fast_eq): same result, binary state ids *)
+  match compile_fast fuel cf (to_nfa nd) with
   | Ok d =>
       if negb (N.eqb (N.of_nat (dstart d)) (dd_start dd)) then 1%N
       else if negb (Nat.eqb (length (dinfos d)) (length (dd_rows dd))) then 2%N
@@ -59,3 +60,95 @@ Definition prod_agree (fuel cf : nat) (nd : nfa_data) (dd : dfa_data) : N :=
   | OutOfFuel => 98%N
   | Err _ => 99%N
   end.
+
+(* ---------- witness search (not trusted, no proofs): when the certificate check of
+   Automata/ProdCheck.v fails, look breadth first for a shortest byte string on
+   which the dumped DFA and the dumped NFA disagree: dead vs reachable, accepting
+   vs stop reachable, or the tag sets.  The NFA side steps subsets with the
+   executable definitions of ProdCheck (targets, fc). ---------- *)
+From SNT Require Import Automata.ProdCheck.
+
+Section Witness.
+  Variable nd : nfa_data.
+  Variable dd : dfa_data.
+  Variable idx : PositiveMap.t nstate_data.
+  Variable cfuel : nat.
+
+  Definition set_of (m : PositiveMap.t unit) : list N :=
+    map (fun p => Pos.pred_N (fst p)) (PositiveMap.elements m).
+
+  Definition closure_of (seeds : list N) : list N :=
+    set_of (fc idx cfuel (PositiveMap.empty unit) seeds).
+
+  Definition nfa_tags (qs : list N) : list N :=
+    fold_left (fun acc t => nins t acc) (tags_in idx qs) [].
+
+  (* true = the DFA state (None = dead) and the NFA subset disagree *)
+  Definition differ (k : option N) (qs : list N) : bool :=
+    match k with
+    | None => match qs with [] => false | _ => true end
+    | Some k =>
+        match qs with
+        | [] => true
+        | _ =>
+            match nth_error (dd_infos dd) (N.to_nat k) with
+            | Some i =>
+                negb (Bool.eqb (fst (fst i)) (memN (nd_stop nd) qs))
+                || negb (nlist_eqb (prod_tags (snd i)) (nfa_tags qs))
+            | None => true
+            end
+        end
+    end.
+
+  Definition seen (k : N) (qs : list N) (v : PositiveMap.t (list (list N))) : bool :=
+    match PositiveMap.find (N.succ_pos k) v with
+    | Some l => existsb (nlist_eqb qs) l
+    | None => false
+    end.
+
+  Definition mark (k : N) (qs : list N) (v : PositiveMap.t (list (list N))) :=
+    PositiveMap.add (N.succ_pos k)
+      (qs :: match PositiveMap.find (N.succ_pos k) v with Some l => l | None => [] end) v.
+
+  (* one node: try every byte; Some witness, or the new nodes *)
+  Fixpoint expand (r : row) (qs path : list N) (bytes : list N)
+           (v : PositiveMap.t (list (list N))) (new : list (N * list N * list N))
+    : (option (list N)) * PositiveMap.t (list (list N)) * list (N * list N * list N) :=
+    match bytes with
+    | [] => (None, v, new)
+    | c :: bs =>
+        let qs' := closure_of (targets idx qs c) in
+        let k' := row_find r c in
+        if differ k' qs' then (Some (rev (c :: path)), v, new)
+        else match k' with
+             | Some k2 =>
+                 if seen k2 qs' v then expand r qs path bs v new
+                 else expand r qs path bs (mark k2 qs' v) (new ++ [(k2, qs', c :: path)])
+             | None => expand r qs path bs v new
+             end
+    end.
+
+  Fixpoint wsearch (fuel : nat) (v : PositiveMap.t (list (list N)))
+           (queue : list (N * list N * list N)) : option (list N) :=
+    match fuel with
+    | O => None
+    | S f =>
+        match queue with
+        | [] => None
+        | (k, qs, path) :: rest =>
+            let r := match nth_error (dd_rows dd) (N.to_nat k) with Some r => r | None => [] end in
+            match expand r qs path all_bytes v [] with
+            | (Some w, _, _) => Some w
+            | (None, v', new) => wsearch f v' (rest ++ new)
+            end
+        end
+    end.
+
+  Definition witness : option (list N) :=
+    let s0 := closure_of [0%N] in
+    if differ (Some (dd_start dd)) s0 then Some []
+    else wsearch 4000 (mark (dd_start dd) s0 (PositiveMap.empty _)) [(dd_start dd, s0, [])].
+End Witness.
+
+Definition prod_witness (nd : nfa_data) (dd : dfa_data) : option (list N) :=
+  witness nd dd (sd_index nd) (N.to_nat 100000).
